@@ -124,13 +124,16 @@ PROPS = {
         ],
     ),
     "C02": dict(
-        coq_targets=["Props/C02.vo"],
+        coq_targets=["Props/C02.vo", "Model/Uplinks.vo"],
         harness=[dict(pkg="h_agent", bin="c02", cases={"quick": 600, "thorough": 8000},
                       checkers=["corr", "oracle"], timeout=1800),
                  dict(pkg="h_agent", bin="c02l", cases={"quick": 600, "thorough": 6000},
-                      checkers=["corr", "oracle"], timeout=1800)],
+                      checkers=["corr", "oracle"], timeout=1800),
+                 dict(pkg="h_agent", bin="c04", cases={"quick": 300, "thorough": 4000},
+                      checkers=["corr", "oracle"], timeout=2400)],
         allowed_axioms=[],
         trusted_base=[
+            "the runtime's per-remote map uplink (Uplinks: the MapOperationQueue is popped one operation per write and the lane re-queued while it has data) is exercised by the write-task harness c04 (shared with C01 / C03 / C04 / C14), whose model is Model/Uplinks.v",
             "HashMap / BTreeMap / VecDeque as association lists and lists (HashMap::insert and BTreeMap::insert keep the key object already present); slice::sort_by as a stable insertion sort (any correct stable sort gives the same list; C02_drop_take_order_independent)",
             "a key is (class, spelling): the harness key pools are built from the real Eq / Ord / Hash of swimos_model::Value and the real compare_recon_values, asserted at start-up (classes ==, class index = rank in Value::cmp, equal keys hash alike)",
             "usize epochs are 64 bit (wrapping arithmetic written out mod 2^64; the real queues are started at epochs at and near usize::MAX through the verif_with_head_epoch hook)",
